@@ -446,6 +446,55 @@ def subsecond_offset_round(mon, rec, rng):
                           {'kind': 'subsecond'})
 
 
+def generic_functions_round(mon, rec, rng):
+    """generic ordering functions over date/time values agree with the comparison operators, whatever form the host
+    handed the instants over in (naive = UTC, or zone-aware at any offset).  Membership functions (in, indexOf,
+    contains) are not judged: they use python's equality of the elements for every type, under which a naive and an
+    aware datetime are never equal - the statement speaks of equality and ordering, i.e. the operators and what is
+    built on them (characterised)."""
+    base = datetime.datetime(1990 + rng.randrange(60), rng.randrange(1, 13), rng.randrange(1, 28), rng.randrange(24), rng.randrange(60))
+    UTC = datetime.timezone.utc
+
+    def form(inst, kind):
+        if kind == 'naive':
+            return inst
+        h = rng.choice((-11, -5, 0, 1, 2, 5, 9, 13))
+        return (inst + datetime.timedelta(hours=h)).replace(tzinfo=datetime.timezone(datetime.timedelta(hours=h)))
+    insts = [base + datetime.timedelta(seconds=rng.choice((0, 0, 1, -1, 3600, -7200, 86400))) for _ in range(3)]
+    kinds = [rng.choice(('naive', 'aware')) for _ in range(3)]
+    if len(set(kinds)) == 1 and rng.random() < 0.7:
+        kinds[rng.randrange(3)] = 'aware' if kinds[0] == 'naive' else 'naive'
+    vals = [form(i, k) for i, k in zip(insts, kinds)]
+    v = {'a': vals[0], 'b': vals[1], 'c': vals[2], 'l': list(vals)}
+    hi, lo = max(insts), min(insts)
+    names = 'abc'
+    tag = ':mixed-naive-aware' if len(set(kinds)) > 1 else ''
+    checks = [('generic-max2', 'max($a, $b) = $%s' % names[insts.index(max(insts[:2]))], True),
+              ('generic-min2', 'min($a, $b) = $%s' % names[insts.index(min(insts[:2]))], True),
+              ('generic-list-max', '$l.max() = $%s' % names[insts.index(hi)], True),
+              ('generic-list-min', '$l.min() = $%s' % names[insts.index(lo)], True),
+              ('generic-literal-list-max', '[$a, $b, $c].max() = $%s' % names[insts.index(hi)], True),
+              ('generic-orderBy-first', '$l.orderBy($).first() = $%s' % names[insts.index(lo)], True),
+              ('generic-orderBy-last', '$l.orderBy($).last() = $%s' % names[insts.index(hi)], True),
+              ('generic-orderByDescending-first', '$l.orderByDescending($).first() = $%s' % names[insts.index(hi)], True),
+              ('generic-max-initial', '[$a].max($b) = $%s' % names[insts.index(max(insts[:2]))], True),
+              ('generic-where-lt', '$l.where($ < $a).len()', sum(1 for i in insts if i < insts[0])),
+              ('generic-where-eq', '$l.where($ = $a).len()', sum(1 for i in insts if i == insts[0]))]
+    for name, text, want in checks:
+        got = mon.run(text, v)
+        rec.count('cases')
+        rec.count('fn.' + name)
+        rec.count('kind.host-built')
+        rec.count('generic.cases')
+        rec.case((text, repr(vals)))
+        if got[0] == 'value' and got[1] == want and type(got[1]) is type(want):
+            rec.count('agree')
+        else:
+            rec.violation('date-result-differs-from-instant-model:%s%s' % (name, tag),
+                          '%s with a=%r b=%r c=%r gives %r, the instant model gives %r' % (text, vals[0], vals[1], vals[2], got, want),
+                          {'kind': 'generic'})
+
+
 def run_shard(spec, rec):
     import os
     import time as _time
@@ -458,6 +507,7 @@ def run_shard(spec, rec):
         for i in range(spec['count']):
             one_round(mon, rec, rng, {'kind': 'round', 'shard': spec['name'], 'count': spec['count']})
             dst_round(mon, rec, rng)
+            generic_functions_round(mon, rec, rng)
             subsecond_offset_round(mon, rec, rng)
             if i % 20 == 0:
                 rec.sample({'round': i, 'shard': spec['name'], 'terms': ['$d.utc', '$d.timestamp', '($d + $t) - $t', '$d < $e']})
